@@ -30,7 +30,7 @@ CHECKS = {
          "Not decided: fairness and timing; 'number of arenas never exceeds the peak' as a number (follows from R2+R3, not computed)."),
  "C06": ("Shape rules behind exactly-once dropping: length store dominates every in-place slice drop (R1); critical sections discovered over the call graph (raw operation followed by user code, directly or through helpers/closures): tabled instances must drop their guard on the unwind path of the callback, safe-order instances tabled with reason, new ones reported UNCLASSIFIED (R2); ExtractIf index update between predicate and read (R2b); append hand-over order reserve -> copy -> take_owned_slice (R3); owners' Drop reaches drop_in_place on their buffer (R4).",
          "Not decided: exact drop counts over histories; leaks the statement allows; panics thrown by Drop itself; iterator adaptors' internal protocols beyond the tabled ones."),
- "C07": ("The panicking error behaviour is uninhabited and its constructors diverge (R1); binding-aware call-graph proof that no try_* function and no allocator-interface method reaches the allocation-failure panic set or binds an ErrorBehavior parameter to Infallible (R2); failed chunk creation links nothing (R3); reserve-before-write in every single-operation E-generic collection method (R4); checked size computations with error-constructing failure edges, never unwrapped (R5).",
+ "C07": ("The panicking error behaviour is uninhabited and its constructors diverge (R1); binding-aware call-graph proof that no try_* function and no allocator-interface method reaches the allocation-failure panic set or binds an ErrorBehavior parameter to Infallible (R2); failed chunk creation links nothing (R3); reserve-before-write in every single-operation E-generic collection method (R4); checked size computations with error-constructing failure edges, never unwrapped (R5); the current-chunk cell is committed only after the last E-fallible step of the slow path (R6).",
          "Not decided: the post-failure values (previous length and contents) beyond what the ordering implies; multi-step iterator-driven operations; leaks/double drops after failure (see C06)."),
  "C08": ("Claimed narrowly: facade methods delegate to the same-named shared slice implementation (R1); index-derived raw accesses are gated by std's bound relation with a diverging failure arm (R2); element shuffles of remove / swap_remove / insert against Vec's contract in affine normal form, forward and mirrored for the reverse vector (R3); capacity promises: grow only when needed, amortised vs exact policy, ZST never grows / capacity MAX (R4).",
          "NOT decided: equivalence with Vec over operation sequences, iterators (drain/splice/extract_if results), sort/dedup outcomes, lengths after multi-step operations."),
